@@ -52,6 +52,7 @@ type c19 struct {
 
 	maxSteps, steps   int
 	bigSet            bool
+	hugeSet           bool
 	mutated, selected bool
 }
 
@@ -66,6 +67,10 @@ func (s *c19) Start(r *kit.Rng, cfg map[string]int64) {
 		// a set that grows well beyond a dozen coins
 		s.bigSet = true
 		s.maxSteps = r.Range(40, 70)
+		if r.Chance(1, 3) {
+			s.hugeSet = true // beyond 32 coins
+			s.maxSteps = r.Range(90, 130)
+		}
 	}
 	cfg["max_steps"] = int64(s.maxSteps)
 }
@@ -158,6 +163,12 @@ func (s *c19) genSetOp(r *kit.Rng) (kit.Op, bool) {
 	limit := 16
 	if s.bigSet {
 		limit = 24
+		if s.hugeSet {
+			limit = 48
+			if len(s.deque) > 32 {
+				s.st.Probe("set-with-more-than-32-coins")
+			}
+		}
 		if k >= 5 && k <= 8 && r.Chance(3, 4) {
 			k = r.Intn(5) // mostly grow
 		}
@@ -277,7 +288,7 @@ func (s *c19) genSelect(r *kit.Rng) kit.Op {
 func (s *c19) Apply(o kit.Op) *kit.Violation {
 	switch o.K {
 	case "coin":
-		if len(s.pool) >= 24 || o.Arg(0) < 0 || o.Arg(1) < 0 {
+		if len(s.pool) >= 48 || o.Arg(0) < 0 || o.Arg(1) < 0 {
 			return nil
 		}
 		id := len(s.pool)
